@@ -479,7 +479,7 @@ func ReturnErrKind(r *ssa.Return, i int) ErrKind {
 	if i < 0 || i >= len(r.Results) {
 		return ErrUnknown
 	}
-	v := r.Results[i]
+	v := ReturnOperand(r, i)
 	return ValueErrKind(v, r.Block())
 }
 
@@ -615,4 +615,29 @@ func SliceLiteralElems(v ssa.Value) []ssa.Value {
 		}
 	}
 	return out
+}
+
+// ReturnOperand returns result i of a return, seeing through the result slot
+// go/ssa introduces in functions with defers ("*slot = v; rundefers; t = *slot;
+// return t").
+func ReturnOperand(r *ssa.Return, i int) ssa.Value {
+	v := r.Results[i]
+	u, ok := v.(*ssa.UnOp)
+	if !ok || u.Op != token.MUL {
+		return v
+	}
+	al, ok := u.X.(*ssa.Alloc)
+	if !ok {
+		return v
+	}
+	var last ssa.Value
+	for _, in := range r.Block().Instrs {
+		if st, ok := in.(*ssa.Store); ok && st.Addr == ssa.Value(al) {
+			last = st.Val
+		}
+	}
+	if last != nil {
+		return last
+	}
+	return v
 }
